@@ -170,6 +170,14 @@ Definition store_exec (c : scall) (l : store) : store * R :=
 Definition store_prog (c : scall) : list (mstep store unit (scall * R)) :=
   cs1 (fun l o _ => let '(o', r) := store_exec (fst l) o in ((fst l, r), o')).
 
+(* the bodies of the three single-critical-section programs *)
+Definition cache_body (c : ccall) : list ((ccall * R) -> lru -> unit -> (ccall * R) * lru) :=
+  [fun l c0 _ => let '(c', r) := lru_exec (fst l) c0 in ((fst l, r), c')].
+Definition store_body (c : scall) : list ((scall * R) -> store -> unit -> (scall * R) * store) :=
+  [fun l o _ => let '(o', r) := store_exec (fst l) o in ((fst l, r), o')].
+Definition text_body contents bad ce (c : tcall) : list (tls -> tobj -> nat -> tls * tobj) :=
+  [t_stat ce; t_read contents bad ce].
+
 (* ================= 4. YamlTargetSource.get_data ================= *)
 (* world = current version index of every data file; table f v = content of file f in version v;
    one system, one tree: the call reads the files of [tree] in order (a file may occur twice) *)
@@ -225,5 +233,8 @@ Fixpoint bump (f : nat) (w : list nat) : list nat :=
   | x :: r, 0 => S x :: r
   | x :: r, S k => x :: bump k r
   end.
+(* all file states of a run that starts in w and sees the edits [envs] *)
+Fixpoint worlds_of (w : list nat) (envs : list nat) : list (list nat) :=
+  match envs with [] => [w] | e :: r => w :: worlds_of (bump e w) r end.
 (* the data a call must return when the files are in state w *)
 Definition snapshot_of (tree : list nat) (w : list nat) : list (nat * nat) := map (fun f => (f, nth f w 0)) tree.
